@@ -138,13 +138,13 @@ pub proof fn lemma_gpr_reg_no(r: mips_reg)
     ensures gpr_no(r) matches Some(k) ==> 0 <= k < 32 && gpr_reg(k) == r,
 {}
 
-/// the 32 register names are pairwise different and none of them is `$hi`, `$lo` or `branching_condition`
+/// the 32 register names are pairwise different and none of them is `$hi`, `$lo`, `branching_condition` or `branching_target`
 /// (so two different GPRs / HI / LO never share an IL scalar)
 pub proof fn lemma_mips_names_distinct(i: int, j: int)
     requires 0 <= i < 32, 0 <= j < 32,
     ensures
         i != j ==> mips_name(i) != mips_name(j),
-        mips_name(i) != "$hi"@, mips_name(i) != "$lo"@, mips_name(i) != "branching_condition"@,
+        mips_name(i) != "$hi"@, mips_name(i) != "$lo"@, mips_name(i) != "branching_condition"@, mips_name(i) != "branching_target"@,
         (mips_name(i) == "$zero"@) == (i == 0),
 {
     reveal_strlit("$zero");
@@ -179,7 +179,7 @@ pub proof fn lemma_mips_names_distinct(i: int, j: int)
     reveal_strlit("$sp");
     reveal_strlit("$fp");
     reveal_strlit("$ra");
-    reveal_strlit("$hi"); reveal_strlit("$lo"); reveal_strlit("branching_condition");
+    reveal_strlit("$hi"); reveal_strlit("$lo"); reveal_strlit("branching_condition"); reveal_strlit("branching_target");
     let a = mips_name(i);
     let b = mips_name(j);
     assert(a.len() >= 3 && b.len() >= 3);
